@@ -33,6 +33,20 @@ type dir struct {
 	every int
 
 	reads, zeroReads int
+
+	// fault: the failWrite-th Write call (1-based) fails once, writing nothing
+	failWrite, nWrites int
+}
+
+// ErrInjectedWrite is returned by a Write that was selected to fail.
+var ErrInjectedWrite = errors.New("simlink: injected write error")
+
+// FailWrite makes the n-th Write call on this end (1-based) fail once without
+// writing anything; later writes succeed again (a transient fault).
+func (e *End) FailWrite(n int) {
+	e.out.mu.Lock()
+	e.out.failWrite = n
+	e.out.mu.Unlock()
 }
 
 // End is one end of a Link.
@@ -77,6 +91,10 @@ func (e *End) Write(p []byte) (int, error) {
 	}
 	if len(p) == 0 {
 		return 0, nil
+	}
+	d.nWrites++
+	if d.failWrite > 0 && d.nWrites == d.failWrite {
+		return 0, ErrInjectedWrite
 	}
 	d.data = append(d.data, p...)
 	d.writes = append(d.writes, len(d.data))
